@@ -17,8 +17,13 @@ Numbers.  A printed real is anchored on its decimal point:
 * a number WITHOUT an exponent was printed by F editing and owns every digit before its point.
 
 Integer columns (the row index; ECO2M's phase-index column 'I') are isolated digit runs between the
-names and the first real.  Names are 5 characters (A3,I2 / A5), possibly with embedded blanks, and end in
-a non-blank character: the last name ends at the last non-blank character before the integer columns.
+names and the first real (a field of asterisks is an index that overflowed its width).  Names are 5
+characters (A3,I2 / A5), possibly with embedded blanks, and end in a digit; TOUGH+ prints one flag
+character ('+', '*') directly after an element name.  Names and integers can abut ('al1010' is source
+'al10', index 10): because one format prints all rows of a table, the names end in the same column on
+every row of that printed table, and that column is taken by majority vote over the rows of THAT table
+at THAT result time on which names and integers are separated by blanks.  Nothing is carried from one
+printed table to another, and no column position is used for the values.
 
 Structure.  Two families, recognised by their own banners:
 * AUTOUGH2: every table is bracketed by three lines of a repeated letter (EEEEE/CCCCC/GGGGG: start of
@@ -126,8 +131,8 @@ def _name_end(text):
 
 
 def candidate(line):
-    """Phase 1, one line on its own: (spans of reals, prefix) when the line consists of some prefix
-    followed by nothing but blank-separated reals."""
+    """Phase 1, one line on its own: the spans of its reals when the line consists of some prefix
+    followed by nothing but reals and blanks; None otherwise."""
     toks = real_tokens(line)
     if not toks:
         return None
